@@ -8,7 +8,7 @@ import (
 
 // c11GraphLookups decides the structural part of the graph queries that the
 // delegation rule C11.4 leaves open: how edgeBetween finds its two endpoints
-// and how From/To add the control nodes wired to an ordinary node.
+// how its control-node case consults both link lists, and how From/To add the control nodes wired to an ordinary node.
 func (r *Run) c11GraphLookups() {
 	p := r.P
 	eb := p.Func(PkgN, "Network.edgeBetween")
@@ -90,6 +90,54 @@ func (r *Run) c11GraphLookups() {
 			}
 		}
 		r.Check(okStop, "edgeBetween.scan-complete", p.Pos(tests[1].Cond.Pos()), "the node scan ends early only when both endpoints were found", "the node scan can stop before both endpoints were looked for")
+	}
+
+	// --- control-node case: both link lists of the control node are consulted before "no edge" is answered.
+	// A node may be input and output of the same module; the scan of one list must not answer nil for the other.
+	var scanIn, scanOut *Loop
+	for _, l := range loops {
+		if loopRangesOver(tm, l, "recv.controlNodes[*].Incoming") {
+			scanIn = l
+		}
+		if loopRangesOver(tm, l, "recv.controlNodes[*].Outgoing") {
+			scanOut = l
+		}
+	}
+	if scanIn == nil || scanOut == nil {
+		r.Bad("edgeBetween.control.both-lists", pos, "edgeBetween does not scan both the Incoming and the Outgoing links of the matching control node")
+	} else {
+		first, second := scanIn, scanOut
+		if scanOut.Header.Dominates(scanIn.Header) {
+			first, second = scanOut, scanIn
+		}
+		var where string
+		// a `return nil` reachable from inside the first scan without entering the second one
+		seen := map[*ssa.BasicBlock]bool{}
+		var stack []*ssa.BasicBlock
+		for b := range first.Blocks {
+			if b != first.Header {
+				stack = append(stack, b)
+				seen[b] = true
+			}
+		}
+		for len(stack) > 0 {
+			b := stack[len(stack)-1]
+			stack = stack[:len(stack)-1]
+			if ret, ok := b.Instrs[len(b.Instrs)-1].(*ssa.Return); ok {
+				if c, isC := ret.Results[0].(*ssa.Const); isC && c.Value == nil {
+					where = p.Pos(ret.Pos())
+				}
+			}
+			for _, sx := range b.Succs {
+				if sx == first.Header || sx == second.Header || seen[sx] {
+					continue
+				}
+				seen[sx] = true
+				stack = append(stack, sx)
+			}
+		}
+		r.Check(where == "", "edgeBetween.control.both-lists", p.Pos(first.Header.Instrs[0].Pos()), "no `return nil` is reachable from the first link scan without the second scan having run",
+			"the scan of the control node's first link list answers `no edge` ("+where+") before the other list was looked at: for a node that is input and output of the same module the directed edge control->node exists in the second list and is not reported (From/To list it, Edge/HasEdgeFromTo/Weight deny it)")
 	}
 
 	// --- From / To: every control node wired to the id is listed
